@@ -542,6 +542,11 @@ Definition check_resume (c : backend * task * nat * list entry * list bool) : bo
   let after := resumed b t k (fun _ => true) ents in
   bools_eqb (map (fun e => existsb (entry_eqb e) after) ents) surv.
 
+(* seed/config.py ConfigurationBase._coverages: the named coverages of a task are loaded; if one of them is empty
+   at run time (EmptyCoverageError) the coverage of the task is False and cleanup() skips the task (t_skip).
+   empties: for each named coverage, is it empty *)
+Definition conf_skip (empties : list bool) : bool := existsb (fun e => e) empties.
+
 (* ------------------------------------------------------------------ names of the per-level database files
    (MBTilesLevelCache): which files does remove_level_tiles_before(level, remove_all=True) unlink *)
 From Coq Require String Ascii Decimal DecimalString DecimalZ.
